@@ -10,15 +10,17 @@
      "script":[["read",n] | ["seek",off,whence] | ["skip",n] …]}
   The client keeps a content offset `off`: "write n" writes content[off, off+n) and advances `off`;
   "open" replaces the upload stream by a new one for the same file id and sets off := 0;
-  a successful "resume" sets off := returned length.  An upload stream is open at the start.
+  a successful "resume" sets off := returned length.  An upload stream is opened at the start (its
+  result is the first entry of "life"); when an open fails (chunk ≤ 0 or chunk > buf) there is no
+  stream and the stream operations write/suspend/resume/close/abort are skipped (["x"]).
   Reply
-    {"ok":{"life":[["w",written,err] | ["s",len,err] | ["o"] | ["r",len,err] | ["c",err] | ["a",err]
+    {"ok":{"life":[["w",written,err] | ["s",len,err] | ["o",err] | ["x"] | ["r",len,err] | ["c",err] | ["a",err]
                   | ["k",err] | ["d",err] | ["u",err] …],
            "chunks":[[n,len,digest]…]   (.chunks of the file, sorted by n)
            "file":[length,chunkSize] | null, "marker":[state,length,chunkSize] | null,
            "open":err|null, "reads":[["r",n,digest,err] | ["p",pos,err] …]}}
   digest = hex for ≤ 16 bytes, otherwise "#" + FNV-1a-64 (16 hex digits).  err = class name | null.
-  chunk ≤ 0 or buf ≤ 0 → {"bad":…} (the harness never sends them; see the termination guards of the model).
+  buf ≤ 0 → {"bad":…}.
 -/
 import Driver.Ops
 import Lungo.Model.GridFS
@@ -68,35 +70,47 @@ def parseScript (j : Json) : Except String (List ROp) := do
 
 structure Life where
   st : Store
-  s : UploadStream
+  s? : Option UploadStream
   off : Nat
   out : Array Json
 
-def lifeStep (content : List UInt8) (tracked : Bool) (id c buf : Nat) (l : Life) (e : Json) : Except String Life := do
+def openJ (tracked : Bool) (id : Nat) (c : Int) (buf : Nat) : Option UploadStream × Json :=
+  match openUpload tracked id c buf with
+  | .ok s => (some s, Json.arr #[Json.str "o", Json.null])
+  | .error e => (none, Json.arr #[Json.str "o", jErr (some e)])
+
+def lifeStepS (content : List UInt8) (l : Life) (s : UploadStream) (tag : String)
+    (a : Array Json) : Except String Life := do
+  match tag with
+  | "write" =>
+    let n ← arrNat a 1
+    let data := (content.drop l.off).take n
+    let (st, s, w, err) := s.write l.st data
+    pure { l with st, s? := some s, off := if err.isNone then l.off + w else l.off, out := l.out.push (Json.arr #[Json.str "w", jNat w, jErr err]) }
+  | "suspend" =>
+    let (st, s, n, err) := s.suspend l.st
+    pure { l with st, s? := some s, out := l.out.push (Json.arr #[Json.str "s", jNat n, jErr err]) }
+  | "resume" =>
+    let (s, n, err) := s.resume l.st
+    pure { l with s? := some s, off := if err.isNone then n else l.off, out := l.out.push (Json.arr #[Json.str "r", jNat n, jErr err]) }
+  | "close" =>
+    let (st, s, err) := s.close l.st
+    pure { l with st, s? := some s, out := l.out.push (Json.arr #[Json.str "c", jErr err]) }
+  | "abort" =>
+    let (st, s, err) := s.abort l.st
+    pure { l with st, s? := some s, out := l.out.push (Json.arr #[Json.str "a", jErr err]) }
+  | _ => throw "bad life op"
+
+
+def lifeStep (content : List UInt8) (tracked : Bool) (id : Nat) (c : Int) (buf : Nat) (l : Life) (e : Json) : Except String Life := do
   let a ← e.getArr?
   let tag : String := match a[0]? with
     | some (Json.str t) => t
     | _ => ""
   match tag with
-  | "write" =>
-    let n ← arrNat a 1
-    let data := (content.drop l.off).take n
-    let (st, s, w, err) := l.s.write l.st data
-    pure { l with st, s, off := if err.isNone then l.off + w else l.off, out := l.out.push (Json.arr #[Json.str "w", jNat w, jErr err]) }
-  | "suspend" =>
-    let (st, s, n, err) := l.s.suspend l.st
-    pure { l with st, s, out := l.out.push (Json.arr #[Json.str "s", jNat n, jErr err]) }
   | "open" =>
-    pure { l with s := UploadStream.new tracked id c buf, off := 0, out := l.out.push (Json.arr #[Json.str "o"]) }
-  | "resume" =>
-    let (s, n, err) := l.s.resume l.st
-    pure { l with s, off := if err.isNone then n else l.off, out := l.out.push (Json.arr #[Json.str "r", jNat n, jErr err]) }
-  | "close" =>
-    let (st, s, err) := l.s.close l.st
-    pure { l with st, s, out := l.out.push (Json.arr #[Json.str "c", jErr err]) }
-  | "abort" =>
-    let (st, s, err) := l.s.abort l.st
-    pure { l with st, s, out := l.out.push (Json.arr #[Json.str "a", jErr err]) }
+    let (s?, j) := openJ tracked id c buf
+    pure { l with s?, off := 0, out := l.out.push j }
   | "claim" =>
     let (st, err) := claimUpload l.st tracked id
     pure { l with st, out := l.out.push (Json.arr #[Json.str "k", jErr err]) }
@@ -106,7 +120,13 @@ def lifeStep (content : List UInt8) (tracked : Bool) (id c buf : Nat) (l : Life)
   | "cleanup" =>
     let (st, err) := cleanup l.st tracked
     pure { l with st, out := l.out.push (Json.arr #[Json.str "u", jErr err]) }
-  | _ => throw "bad life op"
+  | _ =>
+    match l.s? with
+    | some s => lifeStepS content l s tag a
+    | none =>
+      if tag == "write" || tag == "suspend" || tag == "resume" || tag == "close" || tag == "abort" then
+        pure { l with out := l.out.push (Json.arr #[Json.str "x"]) }
+      else throw "bad life op"
 
 def outJson : ROp → ROut → Json
   | .read _, o => Json.arr #[Json.str "r", jNat o.ret, Json.str (digest o.bytes), jErr o.err]
@@ -114,8 +134,9 @@ def outJson : ROp → ROut → Json
 
 def opGridFS : Op := fun j => do
   let buf ← natField j "buf"
-  let c ← natField j "chunk"
-  if c = 0 then throw "chunk must be positive"
+  let c ← match jsonInt? (← j.getObjVal? "chunk") with
+    | some i => pure i
+    | none => throw "bad chunk"
   if buf = 0 then throw "buf must be positive"
   let tracked ← match j.getObjVal? "tracked" with
     | .ok (.bool b) => pure b
@@ -132,7 +153,8 @@ def opGridFS : Op := fun j => do
   let lifeJ ← (← j.getObjVal? "life").getArr?
   let script ← parseScript (← j.getObjVal? "script")
   let id := 1
-  let l0 : Life := { st := {}, s := UploadStream.new tracked id c buf, off := 0, out := #[] }
+  let (s0?, j0) := openJ tracked id c buf
+  let l0 : Life := { st := {}, s? := s0?, off := 0, out := #[j0] }
   let l ← lifeJ.foldlM (lifeStep content tracked id c buf) l0
   let st := l.st
   let chunks := (st.chunksOfFile id).map fun d => Json.arr #[jNat d.n, jNat d.data.length, Json.str (digest d.data)]
